@@ -1,2 +1,316 @@
+//! Tree ops: fold / visitor / optimizer (C12), locators (C13), unparse (C11), parameter forms (C14).
+use crate::dump::{jstr, take_mismatches, Dump};
+use crate::ops_parse::err_json;
+use crate::{mode_of, req_str, req_u64};
+use rustpython_ast as ast;
+use rustpython_ast::fold::Fold;
+use rustpython_ast::Visitor;
+use rustpython_parser::text_size::{TextRange, TextSize};
+use rustpython_parser::Parse;
+use rustpython_parser_core::source_code::{LinearLocator, RandomLocator, SourceLocation};
 use serde_json::Value;
-pub fn dispatch(_op: &str, _req: &Value) -> Option<String> { None }
+use std::panic::{catch_unwind, AssertUnwindSafe};
+
+// ---------------------------------------------------------------- tagging folder (C12 b)
+#[derive(Clone, Copy, Debug, PartialEq)]
+pub struct Tag(pub u32);
+impl Dump for Tag {
+    fn dump(&self, o: &mut String) {
+        o.push_str(&format!("{{\"tag\":{}}}", self.0));
+    }
+}
+macro_rules! chk_none {
+    ($s:expr, $k:expr) => {};
+}
+macro_rules! chke_none {
+    ($s:expr, $k:expr, $($v:ident),*) => {};
+}
+mod tagdump {
+    use super::Tag;
+    use crate::dump::Dump;
+    use rustpython_ast as ast;
+    hand_dump!(Tag);
+    gen_dump!(Tag, chk_none, chke_none);
+}
+
+struct Tagger {
+    will: u32,
+    log: Vec<(u32, TextRange)>,
+}
+impl Fold<TextRange> for Tagger {
+    type TargetU = Tag;
+    type Error = std::convert::Infallible;
+    type UserContext = u32;
+    fn will_map_user(&mut self, _user: &TextRange) -> u32 {
+        self.will += 1;
+        self.will - 1
+    }
+    fn map_user(&mut self, user: TextRange, ctx: u32) -> Result<Tag, Self::Error> {
+        self.log.push((ctx, user));
+        Ok(Tag(ctx))
+    }
+}
+
+struct Identity;
+impl Fold<TextRange> for Identity {
+    type TargetU = TextRange;
+    type Error = std::convert::Infallible;
+    type UserContext = ();
+    fn will_map_user(&mut self, _user: &TextRange) {}
+    fn map_user(&mut self, user: TextRange, _ctx: ()) -> Result<TextRange, Self::Error> {
+        Ok(user)
+    }
+}
+
+// ---------------------------------------------------------------- tracing visitor (C12 c)
+struct Tracer {
+    out: Vec<(&'static str, TextRange)>,
+}
+impl Visitor for Tracer {
+    fn visit_stmt(&mut self, node: ast::Stmt) {
+        self.out.push(("stmt", ast::Ranged::range(&node)));
+        self.generic_visit_stmt(node)
+    }
+    fn visit_expr(&mut self, node: ast::Expr) {
+        self.out.push(("expr", ast::Ranged::range(&node)));
+        self.generic_visit_expr(node)
+    }
+    fn visit_pattern(&mut self, node: ast::Pattern) {
+        self.out.push(("pattern", ast::Ranged::range(&node)));
+        self.generic_visit_pattern(node)
+    }
+    fn visit_excepthandler(&mut self, node: ast::ExceptHandler) {
+        self.out.push(("excepthandler", ast::Ranged::range(&node)));
+        self.generic_visit_excepthandler(node)
+    }
+}
+
+fn loc(l: SourceLocation) -> String {
+    format!("[{},{}]", l.row.get(), l.column.get())
+}
+
+fn dump_s<T: Dump>(t: &T) -> String {
+    let mut o = String::new();
+    t.dump(&mut o);
+    o
+}
+
+fn parse_mod(req: &Value) -> Result<ast::Mod, String> {
+    let src = req_str(req, "src");
+    let mode = mode_of(req_str(req, "mode"));
+    let k = req_u64(req, "k") as u32;
+    rustpython_parser::parse_starts_at(src, mode, "<v>", TextSize::from(k)).map_err(|e| err_json(&e))
+}
+
+fn py_args_json(p: &ast::PythonArguments) -> String {
+    format!(
+        "{{\"posonlyargs\":{},\"args\":{},\"vararg\":{},\"kwonlyargs\":{},\"kw_defaults\":{},\"kwarg\":{},\"defaults\":{}}}",
+        dump_s(&p.posonlyargs),
+        dump_s(&p.args),
+        dump_s(&p.vararg),
+        dump_s(&p.kwonlyargs),
+        dump_s(&p.kw_defaults),
+        dump_s(&p.kwarg),
+        dump_s(&p.defaults)
+    )
+}
+
+pub fn dispatch(op: &str, req: &Value) -> Option<String> {
+    Some(match op {
+        "tree_ops" => {
+            // one parse, several consumers (fold identity, tagging fold, visitor trace, optimizer)
+            let m = match parse_mod(req) {
+                Ok(m) => m,
+                Err(e) => return Some(e),
+            };
+            let mut o = String::from("{\"tree\":");
+            o.push_str(&dump_s(&m));
+            let _ = take_mismatches();
+            // (a) identity fold
+            let folded = Identity.fold_mod(m.clone()).unwrap();
+            o.push_str(&format!(",\"identity_equal\":{}", folded == m));
+            o.push_str(",\"identity_tree\":");
+            o.push_str(&dump_s(&folded));
+            // (b) tagging fold
+            let mut tg = Tagger { will: 0, log: vec![] };
+            let tagged = tg.fold_mod(m.clone()).unwrap();
+            o.push_str(",\"tagged\":");
+            o.push_str(&dump_s(&tagged));
+            o.push_str(",\"tag_log\":[");
+            for (i, (t, r)) in tg.log.iter().enumerate() {
+                if i > 0 {
+                    o.push(',');
+                }
+                o.push_str(&format!("[{},{},{}]", t, u32::from(r.start()), u32::from(r.end())));
+            }
+            o.push_str(&format!("],\"will_calls\":{}", tg.will));
+            // (c) visitor
+            let mut tr = Tracer { out: vec![] };
+            match m.clone() {
+                ast::Mod::Module(mm) => {
+                    for s in mm.body {
+                        tr.visit_stmt(s);
+                    }
+                }
+                ast::Mod::Interactive(mm) => {
+                    for s in mm.body {
+                        tr.visit_stmt(s);
+                    }
+                }
+                ast::Mod::Expression(me) => tr.visit_expr(*me.body),
+                ast::Mod::FunctionType(_) => {}
+            }
+            o.push_str(",\"visited\":[");
+            for (i, (k, r)) in tr.out.iter().enumerate() {
+                if i > 0 {
+                    o.push(',');
+                }
+                o.push_str(&format!("[\"{}\",{},{}]", k, u32::from(r.start()), u32::from(r.end())));
+            }
+            o.push(']');
+            // (d) constant optimiser, once and twice
+            let mut opt = ast::ConstantOptimizer::new();
+            let o1 = Fold::<TextRange>::fold_mod(&mut opt, m.clone()).unwrap();
+            let o2 = Fold::<TextRange>::fold_mod(&mut opt, o1.clone()).unwrap();
+            o.push_str(",\"opt\":");
+            o.push_str(&dump_s(&o1));
+            o.push_str(&format!(",\"opt_idempotent\":{}", o1 == o2));
+            o.push('}');
+            o
+        }
+        "locate" => {
+            let src = req_str(req, "src");
+            let m = match parse_mod(req) {
+                Ok(m) => m,
+                Err(e) => {
+                    // error offsets convert the same way
+                    let mode = mode_of(req_str(req, "mode"));
+                    let e1 = rustpython_parser::parse(src, mode, "<v>").err().unwrap();
+                    let e2 = rustpython_parser::parse(src, mode, "<v>").err().unwrap();
+                    let off = u32::from(e1.offset);
+                    let r: rustpython_parser_core::source_code::LocatedError<rustpython_parser::ParseErrorType> =
+                        RandomLocator::new(src).locate_error(e1);
+                    let l = catch_unwind(AssertUnwindSafe(|| {
+                        let l: rustpython_parser_core::source_code::LocatedError<rustpython_parser::ParseErrorType> =
+                            LinearLocator::new(src).locate_error(e2);
+                        l.location.map(loc).unwrap_or("null".into())
+                    }));
+                    let mut s = e;
+                    s.pop();
+                    s.push_str(&format!(
+                        ",\"err_offset\":{},\"err_random\":{},\"err_linear\":{},\"python_location\":[{},{}]}}",
+                        off,
+                        r.location.map(loc).unwrap_or("null".into()),
+                        match l {
+                            Ok(s) => s,
+                            Err(_) => "\"panic\"".into(),
+                        },
+                        r.python_location().0,
+                        r.python_location().1
+                    ));
+                    return Some(s);
+                }
+            };
+            let mut o = String::from("{\"tree\":");
+            o.push_str(&dump_s(&m));
+            let _ = take_mismatches();
+            let random = RandomLocator::new(src).fold_mod(m.clone()).unwrap();
+            o.push_str(",\"random\":");
+            o.push_str(&dump_s(&random));
+            let mm = take_mismatches();
+            if !mm.is_empty() {
+                o.push_str(&format!(",\"located_mismatch\":{}", serde_json::to_string(&mm).unwrap()));
+            }
+            let lin = catch_unwind(AssertUnwindSafe(|| {
+                let t = LinearLocator::new(src).fold_mod(m.clone()).unwrap();
+                dump_s(&t)
+            }));
+            o.push_str(",\"linear\":");
+            match lin {
+                Ok(s) => o.push_str(&s),
+                Err(e) => {
+                    let msg = e.downcast_ref::<String>().cloned().or(e.downcast_ref::<&str>().map(|s| s.to_string())).unwrap_or_default();
+                    o.push_str(&format!("{{\"panic\":{}}}", jstr(&msg[..msg.len().min(300)])));
+                }
+            }
+            o.push('}');
+            o
+        }
+        "locate_offsets" => {
+            // raw locator calls on a monotone offset list (linear) / any list (random)
+            let src = req_str(req, "src");
+            let offs: Vec<u32> = req["offsets"].as_array().map(|a| a.iter().map(|x| x.as_u64().unwrap() as u32).collect()).unwrap_or_default();
+            let mut rl = RandomLocator::new(src);
+            let random: Vec<String> = offs.iter().map(|o| loc(rl.locate(TextSize::from(*o)))).collect();
+            let lin = catch_unwind(AssertUnwindSafe(|| {
+                let mut ll = LinearLocator::new(src);
+                offs.iter().map(|o| loc(ll.locate(TextSize::from(*o)))).collect::<Vec<_>>()
+            }));
+            format!(
+                "{{\"random\":[{}],\"linear\":{}}}",
+                random.join(","),
+                match lin {
+                    Ok(v) => format!("[{}]", v.join(",")),
+                    Err(_) => "\"panic\"".into(),
+                }
+            )
+        }
+        "unparse" => {
+            let src = req_str(req, "src");
+            let e = match ast::Expr::parse(src, "<v>") {
+                Ok(e) => e,
+                Err(e) => return Some(err_json(&e)),
+            };
+            let text = format!("{}", e);
+            let mut o = format!("{{\"tree\":{},\"text\":{}", dump_s(&e), jstr(&text));
+            match ast::Expr::parse(&text, "<v>") {
+                Ok(e2) => {
+                    let text2 = format!("{}", e2);
+                    o.push_str(&format!(",\"reparse\":{},\"text2\":{}", dump_s(&e2), jstr(&text2)));
+                }
+                Err(err) => o.push_str(&format!(",\"reparse_err\":{}", err_json(&err))),
+            }
+            o.push('}');
+            o
+        }
+        "args_roundtrip" => {
+            let src = req_str(req, "src");
+            let stmt = match ast::Stmt::parse(src, "<v>") {
+                Ok(s) => s,
+                Err(e) => return Some(err_json(&e)),
+            };
+            let args: ast::Arguments = match stmt {
+                ast::Stmt::FunctionDef(f) => *f.args,
+                ast::Stmt::AsyncFunctionDef(f) => *f.args,
+                ast::Stmt::Expr(e) => match *e.value {
+                    ast::Expr::Lambda(l) => *l.args,
+                    _ => return Some("{\"bad\":\"not a function\"}".into()),
+                },
+                _ => return Some("{\"bad\":\"not a function\"}".into()),
+            };
+            let mut o = format!("{{\"orig\":{}", dump_s(&args));
+            let to = args.to_python_arguments();
+            let into = args.clone().into_python_arguments();
+            let from: ast::PythonArguments = args.clone().into();
+            o.push_str(&format!(",\"py_to\":{},\"py_into\":{},\"py_from\":{}", py_args_json(&to), py_args_json(&into), py_args_json(&from)));
+            o.push_str(&format!(",\"to_eq_into\":{}", to == into));
+            let defaults: Vec<String> = args.defaults().map(|e| dump_s(e)).collect();
+            o.push_str(&format!(",\"defaults_iter\":[{}]", defaults.join(",")));
+            let (kw_no, kw_with) = args.split_kwonlyargs();
+            o.push_str(&format!(
+                ",\"split_no_default\":[{}],\"split_with_default\":[{}]",
+                kw_no.iter().map(|a| dump_s(*a)).collect::<Vec<_>>().join(","),
+                kw_with.iter().map(|(a, d)| format!("[{},{}]", dump_s(*a), dump_s(*d))).collect::<Vec<_>>().join(",")
+            ));
+            let back = catch_unwind(AssertUnwindSafe(|| dump_s(&to.into_arguments())));
+            o.push_str(",\"back\":");
+            match back {
+                Ok(s) => o.push_str(&s),
+                Err(_) => o.push_str("\"panic\""),
+            }
+            o.push('}');
+            o
+        }
+        _ => return None,
+    })
+}
